@@ -76,6 +76,7 @@ func (fr *Frame) call(instr ssa.Instruction, c *ssa.CallCommon, st *State) *Val 
 		return fr.builtin(b, c, st, pos, resTy)
 	}
 	fr.emitOrderCheck(instr, c, st)
+	fr.curInstr = instr
 	var args []*Val
 	for _, a := range c.Args {
 		args = append(args, fr.val(a))
